@@ -7,13 +7,14 @@ I2 == <<"i", 2>>
 J2 == <<"j", 2>>
 K3 == <<"k", 3>>
 L_Leaves == <<
+  \* Slices as the term substituted INTO come first, so that a limited (prefix) run reaches them:
+  \* values 1, 3, 5 of Bint[6] with input k : Bint[3]
+  SliceT("k", 1, 6, 2, 6),
+  SliceT("i", 0, 2, 1, 2),
   Iota(<<I2>>, <<>>, 0, 1, 1),
   Iota(<<I2, J2>>, <<>>, 0, 1, 1),
   Iota(<<J2, I2, K3>>, <<>>, 0, 1, 1),
-  Iota(<<K3, I2>>, <<2>>, 0, -5, 2),
-  \* a Slice as the term substituted INTO: values 1, 3, 5 of Bint[6], input k : Bint[3]
-  SliceT("k", 1, 6, 2, 6),
-  SliceT("i", 0, 2, 1, 2) >>
+  Iota(<<K3, I2>>, <<2>>, 0, -5, 2) >>
 L_UnOps == <<>>
 L_BinOps == <<>>
 L_RedOps == <<>>
